@@ -1471,6 +1471,21 @@ impl Interp {
             .collect();
         self.model.drain();
         self.pending_head_append = false;
+        // what this drain certainly collected (expired frames a read had met, head:K evictions) is
+        // physically gone: a lookup by id finds nothing
+        let collected: Vec<u128> = self
+            .model
+            .gone
+            .iter()
+            .filter(|(id, why)| before.contains_key(id) && matches!(why, GoneWhy::Evicted | GoneWhy::Expired))
+            .map(|(id, _)| *id)
+            .take(6)
+            .collect();
+        for id in collected {
+            let got = must("get", self.ex().get(id))?;
+            self.model.check_get("after the collector drained: get", id, got.as_ref())?;
+            self.checks += 1;
+        }
         // bookkeeping for the non-triviality rules
         let evicted: Vec<(u128, String)> = self
             .model
@@ -2301,6 +2316,11 @@ impl Interp {
                         // retention work queued for the old topic does not follow the frame around:
                         // keep it simple and give the moved frame no TTL of its own
                         spec.ttl = Some(WTtl::Forever);
+                        // (and no moves out of or into a topic for which head:K work is still queued:
+                        // whether that work meets the frame depends on when the collector runs)
+                        if self.model.has_pending_head(live[i].ctx, &live[i].topic) || self.model.has_pending_head(spec.ctx, &spec.topic) {
+                            return Ok(());
+                        }
                         if spec.topic != live[i].topic || spec.ctx != live[i].ctx {
                             self.flags.import_moved = true;
                         }
